@@ -29,6 +29,26 @@ def nearest_offsets(facts, fname):
         if x.get("k") == "assign" and x["l"].get("k") == "index" and out_param and is_path(x["l"]["e"], out_param) and x["r"].get("k") == "tuple" \
                 and len(x["r"]["elems"]) == 2 and all(is_path(e_) for e_ in x["r"]["elems"]):
             pairs.add((x["r"]["elems"][0]["p"], x["r"]["elems"][1]["p"]))
+    # `for (point, sub) in points.iter_mut().zip(LO..)` with `*point = (A, B)`: N consecutive offsets starting at LO, N = length of the output array
+    import re as _re
+    for x in walk(fn["body"]):
+        if x.get("k") == "for" and x["iter"].get("k") == "mcall" and x["iter"]["name"] == "zip" and x["pat"].get("k") == "ptuple" and len(x["pat"]["elems"]) == 2:
+            dst, rng = x["iter"]["recv"], x["iter"]["args"][0]
+            while dst.get("k") == "mcall" and dst["name"] == "iter_mut":
+                dst = dst["recv"]
+            mN = _re.search(r";\s*(\d+)\s*\]", (fn["params"][2].get("ty") or "")) if len(fn["params"]) > 2 else None
+            if out_param and is_path(dst, out_param) and rng.get("k") == "range" and rng.get("hi") is None and rng.get("lo") is not None and mN \
+                    and all(p_.get("k") == "pident" for p_ in x["pat"]["elems"]):
+                try:
+                    lo = int(show(rng["lo"]).replace("-(", "-").replace(")", "").replace("(", ""))
+                    offs = list(range(lo, lo + int(mN.group(1))))
+                except ValueError:
+                    pass
+                pv = x["pat"]["elems"][0]["name"]
+                for y in walk(x["body"]):
+                    if y.get("k") == "assign" and y["l"].get("k") == "un" and y["l"]["op"] == "*" and is_path(y["l"]["e"], pv) and y["r"].get("k") == "tuple" \
+                            and len(y["r"]["elems"]) == 2 and all(is_path(e_) for e_ in y["r"]["elems"]):
+                        pairs.add((y["r"]["elems"][0]["p"], y["r"]["elems"][1]["p"]))
     tail = fn["body"]["stmts"][-1] if fn["body"]["stmts"] else None
     if tail is not None and tail.get("k") == "expr" and tail["e"].get("k") == "tuple" and len(tail["e"]["elems"]) == 2 and all(is_path(e_) for e_ in tail["e"]["elems"]):
         pairs.add((tail["e"]["elems"][0]["p"], tail["e"]["elems"][1]["p"]))
@@ -60,6 +80,8 @@ def nearest_offsets(facts, fname):
     for x in walk(fn["body"]):
         if x.get("k") == "let" and x.get("init") is not None and x["pat"]["k"] == "pident":
             v = strip_casts(x["init"])
+            if v.get("k") == "mcall" and v["name"] == "floor" and v["recv"].get("k") == "path":
+                v = dict(v, recv=ir.resolve_let(fn, v["recv"]))      # the scaled fraction given a name first
             if v.get("k") == "mcall" and v["name"] == "floor" and v["recv"].get("k") != "path":
                 a_ = Alg(TypeEnv(locals_={tname: "f64", fac: "int"}))
                 tv, fv = a_.sym(tname), a_.sym(fac)
